@@ -14,3 +14,5 @@ pub(crate) use poller::{
     ReplicationCycleContext,
     ReplicationHandle,
 };
+#[cfg(datacake_verif)]
+pub use poller::verif as poller_verif;
